@@ -12,14 +12,31 @@ import (
 
 type regoPrepared = rego.PreparedEvalQuery
 
-func compileQuiet(profile string) (c *regoPrepared, err error) {
-	defer func() {
-		if r := recover(); r != nil {
-			err = fmt.Errorf("panic: %v", r)
-		}
+func compileQuiet(profile string) (*regoPrepared, error) {
+	type ret struct {
+		c   *regoPrepared
+		err error
+	}
+	done := make(chan ret, 1)
+	go func() {
+		var r ret
+		defer func() {
+			if p := recover(); p != nil {
+				r = ret{nil, fmt.Errorf("panic: %v", p)}
+			}
+			done <- r
+		}()
+		r.c, r.err = pkg.CompileProfile(profile, false, nil)
 	}()
-	return pkg.CompileProfile(profile, false, nil)
+	select {
+	case r := <-done:
+		return r.c, r.err
+	case <-time.After(callDeadline(150)):
+		return nil, errCompileBlocked
+	}
 }
+
+var errCompileBlocked = fmt.Errorf("pkg.CompileProfile did not return")
 
 type chanObs struct {
 	Outcome    string
@@ -74,7 +91,7 @@ func runWithConsumer(f func(ch *chan events.Event) (string, error), capacity, st
 	var r ret
 	select {
 	case r = <-rc:
-	case <-time.After(120 * time.Second):
+	case <-time.After(callDeadline(120)):
 		return chanObs{Outcome: "timeout"}
 	}
 	obs := chanObs{}
